@@ -11,15 +11,15 @@ from collections import OrderedDict as odict
 
 from .refmatch import ref_match
 
-WORDS = ["a", "b", "c", "d", "1", "2", "3"]
+WORDS = ["a", "b", "c", "d", "1", "2", "3", "A", "B"]
 HEADS = ["alpha", "beta", "gamma", "delta", "eps", "zeta", "eta", "theta", "notify", "undone"]
 # ("notify" / "undone" merely START with the letters of a negation word (no / undo): they are plain rules, not negated ones)
 UNKNOWN_HEAD = "unk"
 
 
-def rule(toks, children=(), glob=False, logic=None, ordered=False, rewrite=False):
+def rule(toks, children=(), glob=False, logic=None, ordered=False, rewrite=False, icase=False):
     return {"toks": list(toks), "children": list(children), "glob": glob, "logic": logic,
-            "ordered": ordered, "rewrite": rewrite}
+            "ordered": ordered, "rewrite": rewrite, "icase": icase}
 
 
 def assign_ids(rules, prefix="r"):
@@ -41,6 +41,8 @@ def rule_lines(rules, ind=0):
             s += " %global"
         if r.get("logic"):
             s += " %logic=" + r["logic"]
+        if r.get("icase"):
+            s += " %ignore_case"
         out.append(s)
         out += rule_lines(r["children"], ind + 4)
     return out
@@ -73,19 +75,35 @@ class Ctx:
         c = self.classify(row)
         return None if c is None else (c[0]["id"], c[1])
 
-    def child(self, r):
+    def child(self, r, row=None):
+        """rules for the children of a row governed by r; when the row is given and several local rules match it (overlapping
+        rules), the children rules of all of them apply (first-seen order)"""
         if r.get("glob"):
             return Ctx([], self.globs)
-        return Ctx(r["children"], self.globs)
+        kids = list(r["children"])
+        if row is not None:
+            for o in self.local:
+                if o is not r and ref_match(o["toks"], row) is not None:
+                    have = {id(x) for x in kids}
+                    kids += [c for c in o["children"] if id(c) not in have and " ".join(c["toks"]) not in {" ".join(k["toks"]) for k in kids}]
+        return Ctx(kids, self.globs)
 
 
 def is_block(r):
     return bool(r["children"])
 
 
+def valued_block(r):
+    """a block rule whose header carries a value outside the key; only with undo_redo logic is replacing such a header defined
+    (old block removed, new one created with all its children)"""
+    return is_block(r) and r.get("logic") == "common.undo_redo"
+
+
 def fully_keyed(r):
     """rows of this rule are determined by their key (no free value words)"""
-    return is_block(r) or r.get("logic") == "common.permanent" or r.get("ordered") or r.get("rewrite")
+    if valued_block(r):
+        return False
+    return is_block(r) or r.get("logic") == "common.permanent" or r.get("ordered") or r.get("rewrite") or r.get("icase")
 
 
 # ------------------------------------------------------------------ generation
@@ -93,7 +111,7 @@ def inst_row(rnd, r, valued=None):
     w = []
     for t in r["toks"]:
         if t == "*":
-            w.append(rnd.choice(WORDS))
+            w.append(rnd.choice(WORDS[:7] if r.get("icase") else WORDS))
         elif t == "~":
             w += [rnd.choice(WORDS) for _ in range(rnd.randint(1, 2))]
         else:
@@ -119,7 +137,24 @@ def gen_rules(rnd, depth=0, heads=None, opts=None):
         sub = [x + str(depth) for x in HEADS[:5]]
         if depth < 2 and kind < 0.3:
             lg = "common.permanent" if ("common.permanent" in logics and rnd.random() < 0.3) else None
-            rules.append(rule(toks, gen_rules(rnd, depth + 1, sub, opts), logic=lg))
+            kids = gen_rules(rnd, depth + 1, sub, opts)
+            blocks_so_far = [r for r in rules if r["children"] and not r["children"][0].get("ordered") and not r["children"][0].get("rewrite")]
+            if blocks_so_far and rnd.random() < 0.3:
+                # the same child rule NAMES as a sibling block, with different sub-rules below them
+                proto = rnd.choice(blocks_so_far)["children"]
+                kids = [rule(c["toks"], gen_rules(rnd, depth + 2, [x + str(depth + 1) for x in HEADS[:5]], opts) if (c["children"] and depth < 1) else [],
+                             logic=None) for c in proto if not c.get("glob")] or kids
+            if lg is None and "common.undo_redo" in logics and opts.get("valued_blocks", True) and rnd.random() < 0.2:
+                # a key-less block whose header carries a value (bgp 65000 -> bgp 65100): replaced by undo + re-creation
+                rules.append(rule([h], kids, logic="common.undo_redo"))
+            else:
+                rules.append(rule(toks, kids, logic=lg))
+                if opts.get("overlap", True) and "*" in toks and rnd.random() < 0.25:
+                    # an overlapping, more specific rule for one concrete key (after the generic one): the first match governs,
+                    # the children rules of both apply
+                    spec = list(toks)
+                    spec[spec.index("*")] = rnd.choice(WORDS[:4])
+                    rules.append(rule(spec, gen_rules(rnd, depth + 1, [x + str(depth) + "s" for x in HEADS[:4]], opts)))
         elif depth < 2 and kind < 0.48 and opts.get("ordered", True):
             if depth < 1 and rnd.random() < 0.35 and opts.get("ordered_blocks", True):
                 # %ordered BLOCK rules (entries that have their own children), e.g. numbered policy nodes
@@ -141,7 +176,10 @@ def gen_rules(rnd, depth=0, heads=None, opts=None):
                 toks = [t for t in toks if t != "~"]
             elif x < 0.35 and "*" in toks and "common.ignore_changes" in logics:
                 lg = "common.ignore_changes"
-            rules.append(rule(toks, logic=lg))
+            ic = lg is None and opts.get("icase", True) and rnd.random() < 0.12
+            if ic:
+                toks = [t for t in toks if t != "~"]
+            rules.append(rule(toks, logic=lg, icase=ic))
     if depth == 0 and opts.get("globals", True) and rnd.random() < 0.4:
         rules.append(rule(["gdesc", "*"], glob=True))
     if depth == 0:
@@ -164,7 +202,14 @@ def gen_tree(rnd, ctx, unknown=0.0):
                 continue
             seen.add(k)
             # no foreign rows inside %ordered blocks: a moved block is removed and re-created, which cannot preserve lines annet does not know
-            t[row] = gen_tree(rnd, ctx.child(r), 0.0 if r.get("ordered") else unknown) if is_block(r) else odict()
+            if is_block(r):
+                prev_same = [t[x] for x in t if ctx.classify(x) and ctx.classify(x)[0] is r and t[x]]
+                if prev_same and rnd.random() < 0.3:
+                    t[row] = to_odict(plain(rnd.choice(prev_same)))     # sibling blocks with the same content
+                else:
+                    t[row] = gen_tree(rnd, ctx.child(r, row), 0.0 if r.get("ordered") else unknown)
+            else:
+                t[row] = odict()
     if unknown and rnd.random() < unknown:
         t[UNKNOWN_HEAD + " " + rnd.choice(WORDS)] = odict()
     items = list(t.items())
@@ -204,7 +249,10 @@ def mutate(rnd, ctx, tree, unknown=0.0):
         if (r["id"], key) in seen:
             continue
         seen.add((r["id"], key))
-        out[row] = mutate(rnd, ctx.child(r), ch, 0.0 if r.get("ordered") else unknown) if is_block(r) else odict()
+        row2 = row
+        if valued_block(r) and rnd.random() < 0.4:
+            row2 = " ".join(row.split(" ")[:len(r["toks"])] + [rnd.choice(WORDS)])   # same key, new header value
+        out[row2] = mutate(rnd, ctx.child(r, row2), ch, 0.0 if r.get("ordered") else unknown) if is_block(r) else odict()
     for row, ch in gen_tree(rnd, ctx, unknown).items():
         k = ctx.ident(row)
         if k is None:
